@@ -204,6 +204,8 @@ func (a *allocation) createPermission(perm *permission, addr net.Addr) error {
 			return err
 		}
 		perm.setState(permStatePermitted)
+		// A concurrent caller that gave up meanwhile may have dropped the entry.
+		a.permMap.insert(addr, perm)
 	}
 
 	return nil
@@ -214,6 +216,16 @@ func (a *allocation) createPermission(perm *permission, addr net.Addr) error {
 // an Error with Timeout() == true after a fixed time limit;
 // see SetDeadline and SetWriteDeadline.
 // On packet-oriented connections, write timeouts are rare.
+// forgetIdlePermission drops the entry of a permission that was never granted.
+func (a *allocation) forgetIdlePermission(perm *permission, addr net.Addr) {
+	perm.mutex.Lock()
+	defer perm.mutex.Unlock()
+
+	if perm.state() == permStateIdle {
+		a.permMap.delete(addr)
+	}
+}
+
 func (c *UDPConn) WriteTo(payload []byte, addr net.Addr) (int, error) { //nolint:gocognit,cyclop
 	var err error
 	_, ok := addr.(*net.UDPAddr)
@@ -251,7 +263,7 @@ func (c *UDPConn) WriteTo(payload []byte, addr net.Addr) (int, error) { //nolint
 	if err != nil {
 		if errors.Is(err, errTryAgain) {
 			// Retries used up: leave nothing behind, as for any other failure.
-			c.permMap.delete(addr)
+			c.forgetIdlePermission(perm, addr)
 		}
 
 		return 0, err
